@@ -13,6 +13,7 @@ quick tier: generated workloads and crash points; thorough tier: every crash ind
 store for three fixed workloads (finite set, partitioned over the workers).
 """
 import os
+import re
 import struct
 import time
 
@@ -276,6 +277,32 @@ def _run(env, sc, sq, r, ops, crash_at):
         if store.startswith("rock") and fired and partial >= 0 and any(content.served[path][v] == len(m.body) for v in content.all_versions(u)):
             # rock writes a slot (header + payload) with one write(); a partial write leaves a sane header over a torn payload
             cls = ":torn-slot-after-partial-write"
+        elif store.startswith("rock") and fired:
+            # crash between the slot writes of one entry: the next-slot link of a written slot points at a slot that still
+            # holds an older chain of the same key; the db then has no complete chain for the key (engine/vlib/e2e/rockdb.py:
+            # every member names the inode, sizes add up) and the hit was assembled from slots of different chains
+            try:
+                from vlib.e2e import rockdb
+                c = rockdb.chains_of(rockdb.RockDb(os.path.join(sq.cache_sub, "rock")), env.url(path))
+                if c["slots"] and not c["complete"]:
+                    cls = ":no-complete-chain-in-db"
+                elif c["complete"]:
+                    # A complete chain by its slot headers whose first slot carries another response than the rest: the
+                    # entry's slots were freed and taken again, in the same order, by a newer version stored within the same
+                    # second (DbCellHeader::version is the entry timestamp in seconds), and only the first slot(s) of the newer
+                    # version reached the disk.  Told apart by the stored reply head: its Content-Length does not fit the
+                    # entry size recorded at the end of the chain.
+                    db = rockdb.RockDb(os.path.join(sq.cache_sub, "rock"))
+                    chain = c["complete"][0]
+                    slots = dict(db.by_key().get(rockdb.store_key(env.url(path)), []))
+                    data = b"".join(bytes(slots[k].payload[:slots[k].payload_size]) for k in chain)
+                    total = [slots[k].entry_size for k in chain if slots[k].entry_size][0]
+                    eoh = data.find(b"\r\n\r\n")
+                    mm = re.search(rb"\r\nContent-Length: (\d+)\r\n", data[:eoh + 2]) if eoh > 0 else None
+                    if mm and len(set(slots[k].version for k in chain)) == 1 and total - (eoh + 4) != int(mm.group(1)):
+                        cls = ":newer-same-second-version-over-older-chain"
+            except Exception:
+                pass
         r.fail("hit-is-not-a-complete-origin-version:" + store.split("-")[0] + cls,
                "u%d: only-if-cached 200 after the crash with %d body bytes (complete=%s) matching none of the %d completely served versions (sizes %s); crash_at=%d partial=%d" % (
                    u, len(m.body), m.complete, len(served), [content.served[path][v] for v in served], crash_at, partial))
